@@ -617,7 +617,7 @@ func (e *Engine) addNatives() {
 			if m := c.s.eng.jsonMarshalerMethod(iv.T); m != nil {
 				// a json.Marshaler: call its (interpreted) MarshalJSON; on error wrap it as encoding/json does;
 				// returned bytes are taken as they are (assumed valid compact JSON)
-				tname := iv.T.Str
+				tname := shortTypeString(iv.T.T)
 				nf := c.s.newFrame(m, []Value{iv.V}, nil, c.dest)
 				nf.callSite = c.site
 				nf.post = func(s *State, rv Value) Value {
